@@ -431,7 +431,10 @@ def alloc_scenarios(tier):
     frees = [[], [-32768], [32768], [-32767], [32767], [-1], [1], [-32768, 32768], [5, -5], [-32769], [32769], None]
     occs = [dict(occupied=0), dict(occupied=2, elsewhere_delta=40000, occ_budget=3),
             dict(occupied=2, elsewhere_delta=77, occ_budget=3), dict(occupied=1, occ_budget=2),
-            dict(occupied=2, elsewhere_delta=-32768, occ_budget=1), dict(occupied=2, elsewhere_delta=32768, occ_budget=1)]
+            dict(occupied=2, elsewhere_delta=-32768, occ_budget=1), dict(occupied=2, elsewhere_delta=32768, occ_budget=1),
+            # the kernel's fallback lies a multiple of 4 GiB (+ a little) away: |d| mod 2^32 is small, d is not
+            dict(occupied=2, elsewhere_delta=(1 << 20) + 16, occ_budget=1), dict(occupied=2, elsewhere_delta=(2 << 20) - 5, occ_budget=2),
+            dict(occupied=2, elsewhere_delta=(1 << 19) + 3, occ_budget=1)]
     allc = []
     for b in bases:
         for off in offs:
@@ -452,6 +455,8 @@ def alloc_scenarios(tier):
         # always keep the edge layouts
         for sc in allc[170:]:
             if sc.get("free_deltas") in ([-32768], [32768], []) and sc["func_page"] in (0x10000000, 0x1000) and sc.get("occupied") == 0:
+                keep.append(sc)
+            elif sc.get("elsewhere_delta", 0) >= (1 << 19) and sc.get("free_deltas") in ([], [32769]) and sc["off"] == 0:
                 keep.append(sc)
         allc = keep
     for k, sc in enumerate(allc, 1):
